@@ -228,6 +228,49 @@ pub fn answers(d: &Driver) -> Result<Vec<String>, String> {
             bw.push((k.to_vec(), v.to_vec()));
         }
         out.push(format!("scan_rev@{si} = {bw:?}"));
+        // both ends of one iterator: strictly alternating, and a few from one end before the other
+        for (name, lead_front, lead_back) in [("pingpong", 0usize, 0usize), ("front3-then-back", 3, 0), ("back3-then-front", 0, 3)] {
+            let mut it = t.iter(*s, None);
+            let mut seq: Vec<(bool, Vec<u8>, Vec<u8>)> = vec![];
+            let mut done = false;
+            for _ in 0..lead_front {
+                match it.next() {
+                    Some(g) => {
+                        let (k, v) = g.into_inner().map_err(e)?;
+                        seq.push((true, k.to_vec(), v.to_vec()));
+                    }
+                    None => done = true,
+                }
+            }
+            for _ in 0..lead_back {
+                match it.next_back() {
+                    Some(g) => {
+                        let (k, v) = g.into_inner().map_err(e)?;
+                        seq.push((false, k.to_vec(), v.to_vec()));
+                    }
+                    None => done = true,
+                }
+            }
+            let mut front = lead_back > 0 || lead_front == 0;
+            while !done {
+                let g = if name == "pingpong" {
+                    front = !front;
+                    if front { it.next() } else { it.next_back() }
+                } else if lead_front > 0 {
+                    it.next_back()
+                } else {
+                    it.next()
+                };
+                match g {
+                    Some(g) => {
+                        let (k, v) = g.into_inner().map_err(e)?;
+                        seq.push((front, k.to_vec(), v.to_vec()));
+                    }
+                    None => done = true,
+                }
+            }
+            out.push(format!("{name}@{si} = {seq:?}"));
+        }
         out.push(format!("len@{si} = {}", t.len(*s, None).map_err(e)?));
         let mid = d.cfg.keys[d.cfg.keys.len() / 2].clone();
         let mut sub = vec![];
